@@ -23,7 +23,8 @@
   `paused` that the `pause` operation sets (`ConfigObject::SetAuthority`); the stash of withheld state notifications
   (`suppressed_notifications`) is modelled as its two state bits Problem / Recovery.  Not in the model: reachability,
   flapping (the harness keeps them off), the zone check of the cluster handlers (C13), the suppressed-notification timer
-  that later empties the stash (C02; the harness never lets it run), the HTTP layer in front of the API action (an HTTP
+  itself (C02: when it runs, `IsLikelyToBeCheckedSoon`, recent parent recovery — its handler `FireSuppressedNotifications`
+  is the `fire` operation), the HTTP layer in front of the API action (an HTTP
   request is modelled as the API action it dispatches to).
 -/
 import IcingaModel.C01.Model
@@ -88,6 +89,9 @@ inductive Op
   /-- `NotificationComponent::NotificationTimerHandler()` at a moment at which the reminder of the object's (one,
       unfiltered, unpaused) Notification object is due -/
   | remind (now : Int)
+  /-- `Checkable::FireSuppressedNotifications()` — what the checkable's 5 s timer `FireSuppressedNotificationsTimer` calls
+      for every host and service — at a moment at which no check is imminent and no parent has just recovered -/
+  | fire (now : Int)
   deriving Repr
 
 def Op.now : Op → Int
@@ -99,6 +103,7 @@ def Op.now : Op → Int
   | .downtime _ n => n
   | .pause _ n => n
   | .remind n => n
+  | .fire n => n
 
 structure MSt where
   base : St             -- C01: state_raw, state_type, check_attempt, last_hard_state_raw, last result's execution_start
@@ -109,12 +114,13 @@ structure MSt where
   suppRecovery : Bool   -- suppressed_notifications & NotificationRecovery ≠ 0
   inDowntime : Bool     -- Checkable::IsInDowntime(): some registered downtime is in effect
   paused : Bool         -- ConfigObject::IsPaused()
+  stateBefore : SState  -- state_before_suppression (checkable.ti:178-180, default ServiceOK)
   deriving Repr, DecidableEq
 
 /-- A never-checked, never-acknowledged checkable. -/
 def init : MSt :=
   { base := pending, ack := .none, expiry := 0, comments := [], suppProblem := false, suppRecovery := false,
-    inDowntime := false, paused := false }
+    inDowntime := false, paused := false, stateBefore := .ok }
 
 /-- What one operation did besides changing the state (signals are ghost counters). -/
 structure Out where
@@ -254,8 +260,12 @@ def resultStep (c : Cfg) (s : MSt) (new : SState) (execStart execEnd now : Int) 
   -- type (Recovery / Problem) while suppressed or while a state notification is still stashed
   let due := send && !s.paused
   let stash := due && (acked || s.suppProblem || s.suppRecovery)
+  -- :534-542: a state notification is stashed for the first time — remember the state before (OK unless it was hard)
+  let before := if stash && !(s.suppProblem || s.suppRecovery) then (if s.base.stype == .hard then s.base.state else .ok)
+                else s.stateBefore
   ({ a.1 with base := (stepCore c s.base r).1, comments := comments,
-              suppProblem := s.suppProblem || (stash && !recovery), suppRecovery := s.suppRecovery || (stash && recovery) },
+              suppProblem := s.suppProblem || (stash && !recovery), suppRecovery := s.suppRecovery || (stash && recovery),
+              stateBefore := before },
    { acc := true, nClr := a.2, nProbN := if due && !stash && !recovery then 1 else 0,
      nRecN := if due && !stash && recovery then 1 else 0 })
 
@@ -278,6 +288,28 @@ def remindStep (c : Cfg) (s : MSt) (now : Int) : MSt × Out :=
     (g.1, { nClr := g.2, nRem := if g.1.ack == .none then 1 else 0 })
   else (s, {})
 
+/-- The guards of `Checkable::FireSuppressedNotifications` that stand before the suppression test
+    (checkable-notification.cpp:134-146; the object is active and notifications are enabled): not paused, something stashed. -/
+def fireConsiders (s : MSt) : Bool :=
+  !s.paused && (s.suppProblem || s.suppRecovery)
+
+/-- `Checkable::FireSuppressedNotifications` (checkable-notification.cpp:132-249), state notifications: the stash is
+    *processed* — emptied, and a notification of the current state's type requested iff the state differs from the one
+    before the suppression (Up/Down for hosts) — only when `NotificationReasonSuppressed` says no for Problem and Recovery
+    (:305-311: reachable, `IsInDowntime()` before `IsAcknowledged()` in the `||` chain, so the lazy expiry is evaluated only
+    outside a downtime) and the object is in a hard state (no check imminent, no parent just recovered: the harness sees to
+    that); otherwise it is kept for the next run. -/
+def fireStep (c : Cfg) (s : MSt) (now : Int) : MSt × Out :=
+  if fireConsiders s then
+    let g := if s.inDowntime then (s, 0) else getAck s now
+    if s.inDowntime || g.1.ack != .none || s.base.stype != .hard then (g.1, { nClr := g.2 })
+    else
+      let differs := stateChange c.kind s.stateBefore s.base.state
+      let recovery := isOK c.kind s.base.state
+      ({ g.1 with suppProblem := false, suppRecovery := false },
+       { nClr := g.2, nProbN := if differs && !recovery then 1 else 0, nRecN := if differs && recovery then 1 else 0 })
+  else (s, {})
+
 /-- One operation as the entry point performs it. -/
 def opStep (c : Cfg) (s : MSt) : Op → MSt × Out
   | .result new es ee now =>
@@ -291,6 +323,7 @@ def opStep (c : Cfg) (s : MSt) : Op → MSt × Out
   | .downtime on _ => ({ s with inDowntime := on }, {})
   | .pause on _ => ({ s with paused := on }, {})
   | .remind now => remindStep c s now
+  | .fire now => fireStep c s now
 
 /-- One operation followed by a look at the object at the same virtual time.  The harness first reads the raw
     attribute (`Out.raw`: no reader involved), then `GetHandled()`, `GetSeverity()` and `GetAcknowledgement()` in an
